@@ -1,0 +1,125 @@
+//! `cfg(libp2p_verif)` verification hook (property C33): public wrappers that only *call* the
+//! private [`DuplicateCache`], [`TimeCache`] and [`MessageCache`]. Not compiled unless
+//! `--cfg libp2p_verif` is passed. Message ids are `u64`s (big-endian bytes of the id).
+
+use std::time::Duration;
+
+use libp2p_identity::PeerId;
+
+use crate::{
+    mcache::MessageCache,
+    time_cache::{DuplicateCache, TimeCache},
+    topic::TopicHash,
+    types::{MessageId, RawMessage},
+};
+
+fn mid(id: u64) -> MessageId {
+    MessageId::new(&id.to_be_bytes())
+}
+
+fn unmid(id: &MessageId) -> u64 {
+    let mut b = [0u8; 8];
+    b.copy_from_slice(&id.0);
+    u64::from_be_bytes(b)
+}
+
+pub struct DupCache(DuplicateCache<MessageId>);
+
+impl DupCache {
+    pub fn new(ttl: Duration) -> Self {
+        DupCache(DuplicateCache::new(ttl))
+    }
+
+    pub fn insert(&mut self, id: u64) -> bool {
+        self.0.insert(mid(id))
+    }
+
+    pub fn contains(&self, id: u64) -> bool {
+        self.0.contains(&mid(id))
+    }
+}
+
+pub struct TCache(TimeCache<MessageId, u64>);
+
+impl TCache {
+    pub fn new(ttl: Duration) -> Self {
+        TCache(TimeCache::new(ttl))
+    }
+
+    /// `*entry(id).or_default() += delta`, returning the new value.
+    pub fn entry_or_default_add(&mut self, id: u64, delta: u64) -> u64 {
+        let v = self.0.entry(mid(id)).or_default();
+        *v += delta;
+        *v
+    }
+
+    pub fn contains_key(&self, id: u64) -> bool {
+        self.0.contains_key(&mid(id))
+    }
+}
+
+pub struct MCache(MessageCache);
+
+impl MCache {
+    pub fn new(gossip: usize, history_capacity: usize) -> Self {
+        MCache(MessageCache::new(gossip, history_capacity))
+    }
+
+    pub fn put(&mut self, id: u64, topic: &str) -> bool {
+        let msg = RawMessage {
+            source: None,
+            data: id.to_be_bytes().to_vec(),
+            sequence_number: None,
+            topic: TopicHash::from_raw(topic),
+            signature: None,
+            key: None,
+            validated: false,
+        };
+        self.0.put(&mid(id), msg)
+    }
+
+    pub fn observe_duplicate(&mut self, id: u64, source: &PeerId) {
+        self.0.observe_duplicate(&mid(id), source)
+    }
+
+    /// `(topic, validated, count)` of the returned message
+    pub fn get_with_iwant_counts(&mut self, id: u64, peer: &PeerId) -> Option<(String, bool, u32)> {
+        self.0
+            .get_with_iwant_counts(&mid(id), peer)
+            .map(|(m, c)| (m.topic.as_str().to_owned(), m.validated, c))
+    }
+
+    /// `(topic, validated, originating peers)` of the validated message
+    pub fn validate(&mut self, id: u64) -> Option<(String, bool, Vec<PeerId>)> {
+        self.0.validate(&mid(id)).map(|(m, peers)| {
+            (
+                m.topic.as_str().to_owned(),
+                m.validated,
+                peers.into_iter().collect(),
+            )
+        })
+    }
+
+    pub fn get_gossip_message_ids(&self, topic: &str) -> Vec<u64> {
+        self.0
+            .get_gossip_message_ids(&TopicHash::from_raw(topic))
+            .iter()
+            .map(unmid)
+            .collect()
+    }
+
+    pub fn shift(&mut self) {
+        self.0.shift()
+    }
+
+    /// `(topic, validated, originating peers)` of the removed message
+    pub fn remove(&mut self, id: u64) -> Option<(String, bool, Vec<PeerId>)> {
+        self.0.remove(&mid(id)).map(|(m, peers)| {
+            (
+                m.topic.as_str().to_owned(),
+                m.validated,
+                peers.into_iter().collect(),
+            )
+        })
+    }
+}
